@@ -1,3 +1,5 @@
+use std::collections::HashSet;
+
 use ecow::{eco_format, EcoString};
 use syntax::parser::TextRange;
 
@@ -12,6 +14,8 @@ use super::{scope::Scopes, Index, IndexDatabase};
 pub struct IndexCtx<'a> {
     pub db: &'a dyn IndexDatabase,
     pub file_trace: Vec<FileId>,
+    /// files whose declarations have been (or are being) indexed
+    pub indexed_files: HashSet<FileId>,
     pub symbol_map: SymbolMap,
     pub diagnostics: Vec<Diagnostic>,
     pub scopes: Scopes,
@@ -23,6 +27,7 @@ impl<'a> IndexCtx<'a> {
         Self {
             db,
             file_trace: vec![root_file],
+            indexed_files: HashSet::from([root_file]),
             symbol_map: SymbolMap::default(),
             diagnostics: Vec::new(),
             scopes: Scopes::default(),
@@ -34,8 +39,14 @@ impl<'a> IndexCtx<'a> {
         *self.file_trace.last().expect("file_trace is empty")
     }
 
-    pub fn push_file(&mut self, file_id: FileId) {
+    /// Enters `file_id` unless it was indexed before (a file reached through several
+    /// include paths, or an include cycle); returns whether the file was entered.
+    pub fn push_file(&mut self, file_id: FileId) -> bool {
+        if !self.indexed_files.insert(file_id) {
+            return false;
+        }
         self.file_trace.push(file_id);
+        true
     }
 
     pub fn pop_file(&mut self) {
